@@ -2,58 +2,12 @@ package main
 
 import (
 	"encoding/binary"
-	"fmt"
 	"io"
 	"math"
-	"strings"
 
 	structform "github.com/elastic/go-structform"
 	"github.com/elastic/go-structform/cborl"
 )
-
-// =================== encoder cases ===================
-// cborenc \t <failAt> | toks \t W chunks E <idx|-> D <depth>
-func cborEncRun(failAt int, evs []event) string {
-	w := &recWriter{failAt: failAt}
-	idx := -1
-	var err error
-	var depth int
-	o := guard(guardTime, func() {
-		vs := cborl.NewVisitor(w)
-		idx, err = play(structform.EnsureExtVisitor(vs), evs)
-		depth, _ = vs.VerifDepth()
-	})
-	if o.panicked || o.hung {
-		return verdictTok(o, nil)
-	}
-	e := "-"
-	if idx >= 0 {
-		e = fmt.Sprint(idx)
-		if err != errInjected {
-			e += "!"
-		}
-	}
-	return fmt.Sprintf("W %s E %s D %d", chunksTok(w.chunks), e, depth)
-}
-
-var encOpts = genOpts{nonfinite: true, anyBytes: true, ext: true, refs: true, maxDepth: 4, deepChance: 40}
-
-func cborEncCase(r *rng) string {
-	evs := r.genStream(encOpts)
-	if r.chance(1, 4) { // a second document on the same encoder
-		evs = append(evs, r.genStream(encOpts)...)
-	}
-	failAt := -1
-	if r.chance(1, 3) {
-		failAt = r.n(2*len(evs) + 1)
-	}
-	return fmt.Sprintf("cborenc\t%d | %s\t%s", failAt, eventsTok(evs), cborEncRun(failAt, evs))
-}
-
-func cborEncReplay(input string) string {
-	parts := strings.SplitN(input, "|", 2)
-	return cborEncRun(atoi(strings.TrimSpace(parts[0])), parseEventsTok(parts[1]))
-}
 
 // =================== CBOR byte generators ===================
 func cbHead(major byte, v uint64, r *rng) []byte {
@@ -268,206 +222,32 @@ func (r *rng) genCborDoc() []byte {
 	}
 }
 
-// =================== parser cases ===================
-// cborparse \t <mode> <vfail> chunks... \t EV toks R verdict D depths
-// modes: P = Parse(whole) ; S = ParseString ; W = Write* + end ; R = ParseReader(scripted reader)
-func cborParseRun(mode string, vfail int, chunks [][]byte) string {
-	rec := newRecorder(vfail)
-	var err error
-	var depths [5]int
-	o := guard(guardTime, func() {
-		switch mode {
-		case "P":
-			p := cborl.NewParser(refRecorder{rec})
-			var doc []byte
-			for _, c := range chunks {
-				doc = append(doc, c...)
-			}
-			err = p.Parse(doc[:len(doc):len(doc)])
-			depths = p.VerifDepths()
-		case "S":
-			p := cborl.NewParser(refRecorder{rec})
-			var doc []byte
-			for _, c := range chunks {
-				doc = append(doc, c...)
-			}
-			err = p.ParseString(string(doc))
-			depths = p.VerifDepths()
-		case "W":
-			p := cborl.NewParser(refRecorder{rec})
-			for _, c := range chunks {
-				if _, err = p.Write(c); err != nil {
-					break
-				}
-			}
-			if err == nil {
-				err = p.VerifFinalize()
-			}
-			depths = p.VerifDepths()
-		case "R":
-			steps := make([]readStep, len(chunks))
-			for i, c := range chunks {
-				steps[i] = readStep{data: c}
-			}
-			_, err = cborl.ParseReader(&scriptReader{steps: steps}, refRecorder{rec})
-		}
-	})
-	return fmt.Sprintf("EV %s R %s D %d %d %d", eventsTok(rec.evs), verdictTok(o, err), depths[0], depths[1], depths[4])
-}
+type cborParser struct{ *cborl.Parser }
 
-func cborParseCase(r *rng) string {
-	doc := r.genCborDoc()
-	chunks := r.chunking(doc)
-	mode := []string{"P", "W", "W", "W", "R", "S"}[r.n(6)]
-	if mode == "P" || mode == "S" {
-		chunks = [][]byte{doc}
-	}
-	vfail := -1
-	if r.chance(1, 6) {
-		vfail = r.n(12)
-	}
-	obs := cborParseRun(mode, vfail, chunks)
-	// C02 direct oracle: the same document in one piece must give the same events and verdict
-	flags := ""
-	if mode != "P" && vfail < 0 {
-		whole := cborParseRun("P", -1, [][]byte{doc})
-		a, b := stripDepth(obs), stripDepth(whole)
-		if a != b {
-			flags = " ## C02 whole=" + strings.ReplaceAll(b, " ", "_")
-		}
-	}
-	return fmt.Sprintf("cborparse\t%s %d %s\t%s%s", mode, vfail, chunksTok(chunks), obs, flags)
-}
-
-// stripDepth removes the hook-only part and merges by-value/by-reference
-func stripDepth(obs string) string {
-	if i := strings.Index(obs, " D "); i >= 0 {
-		obs = obs[:i]
-	}
-	return obs
-}
-
-func cborParseReplay(input string) string {
-	f := strings.Fields(input)
-	return cborParseRun(f[0], atoi(f[1]), parseChunks(f[2:]))
-}
-
-// =================== decoder cases ===================
-// cbordec \t <B|R> <bufsize> <nexts> <script: hex[+e] ...> \t per Next: "EV toks R verdict ;" ...
-func cborDecRun(kind string, bufsize, nexts int, steps []readStep) string {
-	var sb strings.Builder
-	rec := newRecorder(-1)
-	var dec *cborl.Decoder
-	if kind == "B" {
-		var doc []byte
-		for _, s := range steps {
-			doc = append(doc, s.data...)
-		}
-		dec = cborl.NewBytesDecoder(doc, refRecorder{rec})
-	} else {
-		st := make([]readStep, len(steps))
-		copy(st, steps)
-		dec = cborl.NewDecoder(&scriptReader{steps: st}, bufsize, refRecorder{rec})
-	}
-	for i := 0; i < nexts; i++ {
-		rec.evs = nil
-		var err error
-		o := guard(guardTime, func() { err = dec.Next() })
-		fmt.Fprintf(&sb, "EV %s R %s ; ", eventsTok(rec.evs), verdictTok(o, err))
-		if o.panicked || o.hung || (err != nil) {
-			break
-		}
-	}
-	return strings.TrimSpace(sb.String())
-}
-
-func scriptTok(steps []readStep) string {
-	if len(steps) == 0 {
-		return "."
-	}
-	parts := make([]string, len(steps))
-	for i, s := range steps {
-		parts[i] = hx(s.data)
-		if s.eof {
-			parts[i] += "+e"
-		}
-	}
-	return strings.Join(parts, " ")
-}
-
-func parseScript(toks []string) []readStep {
-	var steps []readStep
-	for _, t := range toks {
-		if t == "." {
-			continue
-		}
-		eof := strings.HasSuffix(t, "+e")
-		t = strings.TrimSuffix(t, "+e")
-		steps = append(steps, readStep{data: unhx(t), eof: eof})
-	}
-	return steps
-}
-
-// script cuts the stream into reads of size 1..bufsize; the last one may carry io.EOF
-func (r *rng) readScript(doc []byte, bufsize int) []readStep {
-	var steps []readStep
-	mode := r.n(3)
-	for i := 0; i < len(doc); {
-		n := bufsize
-		switch mode {
-		case 0:
-			n = 1
-		case 1:
-			n = 1 + r.n(bufsize)
-		}
-		if i+n > len(doc) {
-			n = len(doc) - i
-		}
-		steps = append(steps, readStep{data: doc[i : i+n]})
-		i += n
-	}
-	if len(steps) > 0 && r.bool() {
-		steps[len(steps)-1].eof = true
-	}
-	return steps
-}
-
-func cborDecCase(r *rng) string {
-	var doc []byte
-	k := r.n(5)
-	for i := 0; i < k; i++ {
-		doc = append(doc, r.genCborItem(0, false)...)
-	}
-	switch r.n(6) {
-	case 0: // truncated stream
-		if len(doc) > 1 {
-			doc = doc[:1+r.n(len(doc)-1)]
-		}
-	case 1:
-		doc = append(doc, r.genCborDoc()...)
-	}
-	kind := "R"
-	if r.chance(1, 4) {
-		kind = "B"
-	}
-	bufsize := []int{1, 2, 3, 4, 7, 8, 16, 64}[r.n(8)]
-	steps := r.readScript(doc, bufsize)
-	if kind == "B" {
-		steps = []readStep{{data: doc}}
-	}
-	nexts := k + 2
-	return fmt.Sprintf("cbordec\t%s %d %d %s\t%s", kind, bufsize, nexts, scriptTok(steps), cborDecRun(kind, bufsize, nexts, steps))
-}
-
-func cborDecReplay(input string) string {
-	f := strings.Fields(input)
-	return cborDecRun(f[0], atoi(f[1]), atoi(f[2]), parseScript(f[3:]))
+func (p cborParser) depths() string {
+	d := p.VerifDepths()
+	return itoa3(d[0], d[1], d[4])
 }
 
 func init() {
-	kinds["cborenc"] = kindT{cborEncCase, cborEncReplay}
-	kinds["cborparse"] = kindT{cborParseCase, cborParseReplay}
-	kinds["cbordec"] = kindT{cborDecCase, cborDecReplay}
+	registerFormat(&format{
+		name: "cbor",
+		newVisitor: func(w io.Writer, cfg int) (structform.Visitor, func() int) {
+			vs := cborl.NewVisitor(w)
+			return vs, func() int { d, _ := vs.VerifDepth(); return d }
+		},
+		newParser:   func(vs structform.Visitor) parserI { return cborParser{cborl.NewParser(vs)} },
+		parseReader: func(in io.Reader, vs structform.Visitor) (int64, error) { return cborl.ParseReader(in, vs) },
+		newDecoder: func(in io.Reader, buf int, vs structform.Visitor) decoderI {
+			return cborl.NewDecoder(in, buf, vs)
+		},
+		newBytesDecoder: func(b []byte, vs structform.Visitor) decoderI { return cborl.NewBytesDecoder(b, vs) },
+		genDoc:          func(r *rng) []byte { return r.genCborDoc() },
+		genItem:         func(r *rng) []byte { return r.genCborItem(0, false) },
+		encOpts:         genOpts{nonfinite: true, anyBytes: true, ext: true, refs: true, maxDepth: 4, deepChance: 40},
+		cfgs:            1,
+	})
 }
 
-var _ = io.EOF
+var _ = binary.BigEndian
+var _ = math.MaxInt64
